@@ -31,6 +31,7 @@ func checkC03(r *report.Report, tier string, seed int64) error {
 	opt.WellFormed = true
 	opt.CrossConv = 0.5
 	opt.Embedding = 0.15
+	opt.SiblingUse = true
 	r.Rule = "generated setup files that follow the documented conventions only (WellFormed generator mode: struct operands, syntactically valid notations naming existing functions of an acceptable shape, hooks of fitting shape): 1-2 converter interfaces, 1-3 methods each, all styles/receivers/arguments, surrounding declarations and comments; oracle: exit 0 and one function per method; non-trivial = at least two notations in the file; distinct by file contents"
 	if err := pipelineCheck(r, "C03", seed, tierN(tier, 160, 5000), opt, nil,
 		func(cr *caseRun) bool { return strings.Count(cr.C.Files[cr.C.SetupPath], "// :") >= 2 }, c03Oracle); err != nil {
